@@ -22,13 +22,25 @@ def _consts(fn):
 def check(ctx):
     ctx.rule("T9-params", "constants of crc16 / crc64 equal the catalogue parameters")
     ctx.rule("T9-integer", "only integer bit operators; no Div, no float(); register shifted left only")
-    c16 = ctx.fn("aid.checking", "crc16")
-    c64 = ctx.fn("aid.checking", "crc64")
+    c16o = ctx.fn("aid.checking", "crc16")
+    c64o = ctx.fn("aid.checking", "crc64")
+    from ..rules import propagate_constants
+    mt = ctx.repo.mod("aid.checking").tree
+    # literals kept in locals or module constants are put back in place: the rules are about the values that reach the bit loops
+    c16, c64 = propagate_constants(c16o, mt), propagate_constants(c64o, mt)
+    for a_, b_ in ((c16, c16o), (c64, c64o)):
+        a_._module = getattr(b_, "_module", None)
+        for x in ast.walk(a_):
+            if not hasattr(x, "_module") and not isinstance(x, (ast.expr_context, ast.operator, ast.boolop, ast.cmpop, ast.unaryop)):
+                try:
+                    x._module = a_._module
+                except Exception:
+                    pass
     k = _consts(c16)
     ctx.check({0x1021, 0xffff, 0x8000, 0x80} <= k, "T9-params", c16, "crc16 constants include poly 0x1021, 0xffff, 0x8000, 0x80 (%s)" % sorted(hex(x) for x in k if x > 8),
               "CRC-16/GENIBUS: polynomial 0x1021, initial and final XOR 0xFFFF, not reflected")
     t = src(c16)
-    ok = "crc = 65535" in t.replace("crc = 0xffff", "crc = 65535") and "crc ^ 65535" in t and "crc << 1" in t and "crc & 32768" in t and "byte & 128" in t and "i < 8" in t
+    ok = "crc = 65535" in t.replace("crc = 0xffff", "crc = 65535") and "crc ^ 65535" in t and "crc << 1" in t and "crc & 32768" in t and "byte & 128" in t and ("i < 8" in t or "in range(8)" in t)
     ctx.check(ok, "T9-params", c16, "crc16: init 0xffff, MSB-first loop of 8, final xor 0xffff", "")
     k = _consts(c64)
     split = {0x42f0e1eb, 0xa9ea3693, 0xffffffff, 0x80000000} <= k
@@ -38,7 +50,7 @@ def check(ctx):
     if split:
         t = src(c64)
         ok = "crctop = crctop | botbit" in t and "crcbot & 2147483648" in t and "crctop & 2147483648" in t and \
-            "crctop = crctop ^ polytop" in t and "crcbot = crcbot ^ polybot" in t and "return (crctop, crcbot)" in t and \
+            "crctop = crctop ^ 1123082731" in t and "crcbot = crcbot ^ 2850698899" in t and "return (crctop, crcbot)" in t and \
             "crctop ^ 4294967295" in t and "crcbot ^ 4294967295" in t
         ctx.check(ok, "T9-params", c64, "crc64: carry from low half into high half, both halves xored with their polynomial half, final xor, (top, bot)", "")
     for f in (c16, c64):
